@@ -214,9 +214,12 @@ CLAIMED.update({
             "session states) the close sequence of the connection is run on the real HsmsProtocol: it must finish, report NOT "
             "CONNECTED with an empty buffer, and a following connection must decode and answer a Select.req. The same scenario is "
             "replayed on real dispatcher threads for every cut offset (3 s limit).",
-            "Trusted: CrossHair + chx, the Park model of blocking waits (rigs/park.py), oracles/refe37.py. NOT claimed (not encodable): "
-            "TcpServerConnection/TcpClientConnection enable()/disable() stop-flag handshakes and TcpConnection.disconnect busy waits "
-            "around real sockets, select and sleep.",
+            "tcp_lifecycle: the flag protocol of TcpConnection (disconnect() and the receiver thread function) over every history of "
+            "<= 3 connections / idle disconnects on one object, then a connection that must deliver the peer's bytes, report the "
+            "close once and leave all flags at rest. "
+            "Trusted: CrossHair + chx, the Park model of blocking waits (rigs/park.py), oracles/refe37.py, socket/select/sleep contract "
+            "stubs. NOT claimed (not encodable): TcpServerConnection/TcpClientConnection enable()/disable() accept/connect thread "
+            "handshakes around real sockets; preemption between disconnect() and the receiver thread.",
             "DESIGN.md §3 C09"),
 })
 
@@ -234,17 +237,24 @@ CLAIMED.update({
 })
 
 CLAIMED.update({
-    "C20": ("Claimed part only - mutual format compatibility and data agreement: the real GemHostHandler API (request_svs, list_svs, "
+    "C20": ("(a) Mutual format compatibility and data agreement: the real GemHostHandler API (request_svs, list_svs, "
             "request_ecs, list_ecs, set_ec, list_alarms, list_enabled_alarms, enable/disable_alarm, go_online/offline, are_you_there, "
             "subscribe/clear_collection_events, send_remote_command) runs against a real GemEquipmentHandler over a loopback that "
             "carries the ENCODED bytes of every request and reply in both directions; with symbolic variable / constant values (full "
             "width) the host-side results must equal what the equipment holds, set_ec is applied iff in range, and every collection "
             "event triggered while enabled reaches the host's collection_event_received exactly once with the linked values (none "
-            "after clearing, again after re-subscribing).",
-            "NOT claimed (stated, no encoding within reach): reaching COMMUNICATING for all startup orders, roles, latencies and "
-            "segmentations, and recovery after disable/enable - whole-program properties of >= 8 threads, timers and sockets; their "
-            "sequential pieces are C05/C07/C09. Trusted: CrossHair + chx; both handlers constructed in COMMUNICATING state; synchronous "
-            "loopback; inline sender thread.",
+            "after clearing, again after re-subscribing). (b) establish_schedules: both real handlers on a scheduled link "
+            "(rigs/net.py): the first 4-5 (thorough 5-6) events are chosen by a SYMBOLIC schedule among delivery of either direction's "
+            "FIFO head, early expiry of a WAIT_CRA / delay timer, enable / disable of either side, link selected (inside enable() or "
+            "later), link loss; either connect role, first S1F13 refused or accepted on either side, symbolic system-byte counters; "
+            "after every such prefix a fair continuation (FIFO delivery, timers in due order on a virtual clock) must bring both "
+            "sides to COMMUNICATING within 40 events, no user callback ran outside COMMUNICATING, S1F1/S1F2 works both ways and a "
+            "subscribed collection event reaches the host exactly once.",
+            "Bounded: schedules longer than the stated depth, > 2 early timer expiries, > 1 link loss / disable are outside. The "
+            "HSMS/TCP layers below the GEM handlers are abstracted to their notifications in (b) (Select exchange, T5-T8, byte "
+            "segmentation are C04/C05/C09's subject); each event runs to completion (no preemption inside a handler). Trusted: "
+            "CrossHair + chx; rigs/net.py (one FIFO per direction, passive side selected first, virtual timers); for (a) both "
+            "handlers constructed in COMMUNICATING state; inline sender thread.",
             "DESIGN.md §3 C20"),
 })
 
